@@ -42,7 +42,7 @@ Definition exn_name (e : exn) : string :=
   | EUser 1 => "Base" | EUser 2 => "Derived" | EUser 3 => "Unrelated"
   | EUser 4 => "ValueError" | EUser _ => "RuntimeError"
   | EConn => "ConnectionError" | EExit => "SystemExit"
-  | ERespErr => "ResponseError" | ETypeErr => "TypeError" | EKeyErr => "KeyError"
+  | ERespErr => "ResponseError" | ETypeErr => "TypeError"
   end.
 
 Definition enc_hdrs (hs : list hdr) : V :=
@@ -67,9 +67,7 @@ Definition enc_outcome (x : outcome * list event) : V :=
 Definition run_cycle (a : app) (f : facts) : V := enc_outcome (cycle a f).
 Definition run_to_response (v : pyval) : V :=
   match to_response known_status_c v with
-  | Val r => match emit reason_c r with
-             | Val em => VL [VL (map enc_call (calls em)); VY (List.concat (chunks em))]
-             | Exc e => VX (exn_name e)
-             end
+  | Val r => let em := emit reason_c r in
+             VL [VL (map enc_call (calls em)); VY (List.concat (chunks em))]
   | Exc e => VX (exn_name e)
   end.
